@@ -3,6 +3,11 @@
 import json, subprocess, sys
 
 claimed = {
+ "C13": dict(
+   text="Deductive proof of the comparison and rendering contracts of benchmath: all three Compare methods report both sample sizes; the two testing models carry the samples' threshold on every return (the obligation that exposed the missing Alpha in AssumeNormal.Compare — fixed) and report P == 1 with exactly one warning when the underlying test errs; FormatDelta renders '~' exactly when P > Alpha, '0.00%', '?' and otherwise (new/old-1)*100 — as an identity between floating-point terms, for all float64 inputs; PctRangeString's four cases; the median-CI cache returns QuantileCI of exactly the requested (n, confidence).  The statistical content (p in [0,1], symmetry, exact permutation p-value, invariances) lives in the external module go-moremath: covered by a bounded stand-in only; its failure on tied samples is a known finding (not repairable in /repo).",
+   note="Trusted: lib specs of go-moremath (shape of results only), math.IsInf/Max, mathx.Sign, sync.Map; fmt.Sprintf/Errorf are uninterpreted functions of format and operands; the Summary methods are not yet under contract.",
+   technique="contract-based deductive verification (own VC generator over go/ssa; floats as SMT FloatingPoint; z3/cvc5) + bounded stand-in for the external statistics",
+   design="5/C13"),
  "C04": dict(
    text="Deductive proof that every measurement the reader stores is in base units for every float64 value: Reader.parseBenchmarkLine is verified as a whole against valueOK (either the written unit needs no normalisation, or Unit/Value are Tidy's pair and OrigUnit/OrigValue keep the written pair) — the obligation that exposed the `0 ns/op` defect (fixed).  benchunit.Tidy multiplies by the unit's factor; tidyUnit's fast paths and its sync.Map cache are proved coherent with the slow path (cache invariant); UnitMetadataMap.Get looks up under the normalised unit.  tidyUnitUncached and the unit tokeniser are only under a functional (determinism) assumption and a bounded stand-in against a reference normaliser (incl. idempotence), labelled bounded.",
    note="Trusted: tidyUnitUncached is a function of its argument; sync.Map sequential semantics (lib/sync.spec); strings.Contains functional; Tidy's cache invariant is a global invariant not re-checked at call sites.",
